@@ -3,7 +3,7 @@ from fractions import Fraction
 
 import numpy as np
 
-from harness.core import Prop, cq, cz, clist, coption
+from harness.core import Prop, cq, cz, clist, coption, cbool
 
 import porepy as pp
 
@@ -52,48 +52,63 @@ def stiffness_reference(mu, lam):
     return c
 
 
+def share_matrix(arrays):
+    """Upper triangle of np.shares_memory over a list of arrays (same order as the model's
+    share_matrix)."""
+    out = []
+    for i in range(len(arrays)):
+        for j in range(i + 1, len(arrays)):
+            out.append(bool(np.shares_memory(arrays[i], arrays[j])))
+    return out
+
+
 class C40(Prop):
     id = "C40"
     props_file = "Props/C40.v"
     preamble = ("From Coq Require Import List ZArith QArith.\nImport ListNotations.\n"
-                "From PP Require Import Model.C40.\n")
+                "From PP Require Import Model.C40 Model.C40_heap.\n")
     n_cases = (200, 5000)
     design_ref = "DESIGN.md §5 C40"
     level_text = (
         "Coq theorems, valid over any commutative ring (reals, integers, ...), about an "
         "executable transcription of SecondOrderTensor.__init__/rotate/copy, "
-        "FourthOrderTensor.__init__/copy and Tensor.restrict_to_cells: every constructed "
-        "second-order tensor has the documented index layout and is symmetric in every cell "
-        "(C40_second_order_symmetric); the two tensordot contractions of rotate compute "
-        "R K^T R^T (= R K R^T, symmetric, for symmetric K) and for R^T R = I preserve trace, "
-        "determinant, second invariant and the whole characteristic polynomial, hence the "
-        "eigenvalues (C40_rotate_similarity, C40_rotate_cellwise); restriction of a constructed "
-        "tensor returns exactly the requested cells in the requested order with numpy's "
-        "negative-index rule and raises IndexError exactly for out-of-range indices "
-        "(C40_restrict_selects, C40_restrict_fourth_order: mu, lmbda and values alike, and the "
-        "result is the tensor of the selected parameters); copies are equal tensors "
-        "(C40_copy_equal); every cell of a fourth-order tensor is the isotropic stiffness "
-        "tensor lmbda d_ij d_kl + mu (d_ik d_jl + d_il d_jk) in the 3i+j / 3k+l layout and a "
-        "symmetric 9x9 matrix (C40_fourth_order_symmetric). The model is tied to the code on "
-        "every run by executing both in exact rationals on random parameter arrays, rotation "
-        "matrices from rational quaternions, general matrices, cell selections and "
-        "copy/restrict histories, Coq comparing all outputs and exceptions.")
+        "FourthOrderTensor.__init__ (argument checks, other_fields)/copy and "
+        "Tensor.restrict_to_cells: every constructed second-order tensor has the documented "
+        "index layout and is symmetric in every cell (C40_second_order_symmetric); the two "
+        "tensordot contractions of rotate compute R K^T R^T (= R K R^T, symmetric, for symmetric "
+        "K) and for R^T R = I preserve trace, determinant, second invariant and the whole "
+        "characteristic polynomial, hence the eigenvalues (C40_rotate_similarity, "
+        "C40_rotate_cellwise); restriction of a constructed tensor returns exactly the "
+        "requested cells in the requested order with numpy's negative-index rule and raises "
+        "IndexError exactly for out-of-range indices (C40_restrict_selects, "
+        "C40_restrict_fourth_order, C40_other_fields_copy_restrict: mu, lmbda, every extra field "
+        "and values alike); copies are equal tensors (C40_copy_equal) and, on the allocation "
+        "model of tensor.py, hold only freshly allocated arrays, so in-place writes to a "
+        "copy/restriction never reach the original and vice versa (C40_copy_independent); every "
+        "cell of a fourth-order tensor is the isotropic stiffness tensor lmbda d_ij d_kl + mu "
+        "(d_ik d_jl + d_il d_jk) in the 3i+j / 3k+l layout and a symmetric 9x9 matrix "
+        "(C40_fourth_order_symmetric), and the constructor accepts exactly two 1-D arrays of "
+        "equal size (C40_fourth_order_argument_checks); any homomorphism of number records "
+        "commutes with every model function, in particular the rational instance executed by "
+        "the tie is the real instance on embedded data (C40_instance_independence, "
+        "C40_transfer_Q_R). The model is tied to the code on every run by executing both in "
+        "exact rationals on random float and integer parameter arrays, rotation matrices from "
+        "rational quaternions, general matrices, cell selections, copy/restrict histories, "
+        "other_fields, non-array / 0-d / 2-d / 3-d constructor arguments, and by comparing the "
+        "np.shares_memory matrix of arguments, tensor, copy, restriction and rotated copy with "
+        "the allocation model, Coq comparing all outputs and exceptions.")
     level_note = (
-        "NOT a theorem: independence of a copy's arrays from the original (and vice versa) — "
-        "the model is purely functional; the harness mutates the copy / the original in place "
-        "after every copy and restrict_to_cells and the oracle checks the other object is "
-        "unchanged. Theorems are over exact ring arithmetic; floating-point rounding is "
-        "covered only by the 1e-9 comparison of the tie. FourthOrderTensor's optional "
-        "`other_fields` ARE covered: modelled (extra per-cell lists with their basis matrices "
-        "carried through constructor/copy/restrict, C40_other_fields_copy_restrict), executed in "
-        "the tie, and every extra-field array is included in the in-place independence probes "
-        "after copy(), restrict_to_cells() and copy() of the restricted tensor (mutate result -> "
-        "original unchanged, mutate original -> result unchanged, np.shares_memory false); the "
-        "isotropic-formula and 9x9-symmetry theorems are for tensors without extra fields. The "
-        "ndim/type checks of the constructor are not modelled; arrays of one constructor call "
-        "have equal length. The Q instance executed in the tie and the "
-        "ring of the theorems are instances of one polymorphic definition (instance "
-        "independence trusted). copy()/restrict_to_cells() of a second-order tensor re-run the "
+        "Copy independence: the theorem is about the allocation model (which statements "
+        "allocate); that the implementation allocates where the model says is established per "
+        "run by the shares_memory matrix (cases with at least one cell) and by in-place "
+        "mutation probes of every array (values, mu, lmbda, extra fields) after copy(), "
+        "restrict_to_cells() and copy() of the restriction, both directions. Theorems are over "
+        "exact ring arithmetic; floating-point rounding is covered only by the 1e-9 comparison "
+        "of the tie. The isotropic-formula and 9x9-symmetry theorems are for tensors without "
+        "extra fields; the instance-independence theorem does not cover the other_fields "
+        "variants. Arrays of one constructor call have equal length (numpy broadcasting errors "
+        "are not modelled); the element dtype (float/int) is not modelled, integer arrays are "
+        "exercised by the tie. copy()/restrict_to_cells() of a second-order tensor re-run the "
         "constructor's positivity tests (transcribed); the theorems about them are stated for "
         "tensors as the constructor returns them. Trusted: Coq kernel + vm_compute, harness.")
     technique = ("Coq proof (ring identities: adjugate/cyclic-trace argument for the invariants, "
@@ -106,9 +121,12 @@ class C40(Prop):
             "dyadic or rounded; axis permutations/reflections; general integer matrices), "
             "restrict_to_cells (repeated, negative and out-of-range indices, empty) and copy, "
             "each followed by in-place mutation probes; fourth-order: dyadic mu/lmbda of equal "
-            "or unequal length, in half of the cases with 1-2 other_fields (sparse integer 9x9 "
+            "or unequal length, 20% as int64 arrays, in half of the cases with 1-2 other_fields (sparse integer 9x9 "
             "basis matrix + per-cell array), copy, restriction, copy of the restriction, all "
-            "arrays (values, mu, lmbda, extra fields) probed for aliasing; non-trivial = at least one cell and one "
+            "arrays (values, mu, lmbda, extra fields) probed for aliasing and their "
+            "np.shares_memory matrix compared with the allocation model; 8% constructor-argument "
+            "cases (python list/float/None/tuple, 0-d, 1-d, 2-d, 3-d arrays in all combinations); "
+            "15% of the integer-valued second-order cases as int64 arrays; non-trivial = at least one cell and one "
             "operation")
     trusted = ["per-cell representation: values[i, j, c] <-> matrix of cell c (harness "
                "transposes the numpy layout)",
@@ -227,7 +245,13 @@ class C40(Prop):
         cells = [rng.randint(-nc, nc - 1) for _ in range(k)] if nc else []
         if rng.random() < 0.1:
             cells.append(rng.choice([nc, -nc - 1]))
-        case = {"kind": "fourth", "mu": mu, "lmbda": la, "cells": cells, "extra": []}
+        case = {"kind": "fourth", "mu": mu, "lmbda": la, "cells": cells, "extra": [],
+                "dtype": "float"}
+        if rng.random() < 0.2:
+            # integer Lame parameters (int64 arrays)
+            case["mu"] = [float(rng.randint(1, 9)) for _ in mu]
+            case["lmbda"] = [float(rng.randint(-4, 9)) for _ in la]
+            case["dtype"] = "int"
         if rng.random() < 0.5:
             # other_fields: 1-2 named per-cell arrays with a sparse 9x9 basis matrix each
             for name in rng.sample(["phi", "kappa", "damage"], rng.choice([1, 1, 2])):
@@ -242,12 +266,39 @@ class C40(Prop):
                 case["extra"].append([name, mat, [self._dy(rng) for _ in range(nc)]])
         return case
 
+    def _gen_args(self, rng):
+        def arg():
+            r = rng.random()
+            if r < 0.5:
+                n = rng.randint(0, 3)
+                return ["arr", 1, [self._dy(rng) for _ in range(n)]]
+            if r < 0.62:
+                return ["arr", 2, [self._dy(rng) for _ in range(rng.choice([1, 2, 4]))]]
+            if r < 0.72:
+                return ["arr", 0, [self._dy(rng)]]
+            if r < 0.8:
+                return ["arr", 3, [self._dy(rng) for _ in range(2)]]
+            return [rng.choice(["list", "float", "none", "tuple"]), None,
+                    [self._dy(rng) for _ in range(rng.randint(1, 2))]]
+        a, b = arg(), arg()
+        if a[0] == "arr" and a[1] == 1 and b[0] == "arr" and b[1] == 1 and rng.random() < 0.6:
+            b[2] = [self._dy(rng) for _ in a[2]]
+        return {"kind": "fourth_args", "mu": a, "lmbda": b}
+
     def generate(self, rng, n, tier):
         for _ in range(n):
-            if rng.random() < 0.72:
-                yield self._gen_second(rng)
-            else:
+            r = rng.random()
+            if r < 0.66:
+                c = self._gen_second(rng)
+                if rng.random() < 0.15 and all(float(x).is_integer() for k in
+                                               ("kxx", "kyy", "kzz", "kxy", "kxz", "kyz")
+                                               for x in (c[k] or [])):
+                    c["dtype"] = "int"
+                yield c
+            elif r < 0.92:
                 yield self._gen_fourth(rng)
+            else:
+                yield self._gen_args(rng)
 
     # -- implementation ------------------------------------------------------------------
     def _probe(self, orig_objs, new_objs):
@@ -271,13 +322,25 @@ class C40(Prop):
 
     def run_impl(self, case):
         if case["kind"] == "second":
-            arr = lambda k: None if case[k] is None else np.array(case[k], dtype=float)
+            dt = int if case.get("dtype") == "int" else float
+            arr = lambda k: None if case[k] is None else np.array(case[k], dtype=dt)
             try:
                 t = pp.SecondOrderTensor(arr("kxx"), kyy=arr("kyy"), kzz=arr("kzz"),
                                          kxy=arr("kxy"), kxz=arr("kxz"), kyz=arr("kyz"))
             except ValueError:
                 return {"t0": ["err", "ValueErr"], "outs": [], "indep": []}
-            res = {"t0": ["val", cells_of(t.values)], "outs": [], "indep": []}
+            res = {"t0": ["val", cells_of(t.values)], "outs": [], "indep": [], "alias": None}
+            if case["nc"] >= 1:
+                kw = {k: arr(k) for k in ("kxx", "kyy", "kzz", "kxy", "kxz", "kyz")
+                      if case[k] is not None}
+                args = list(kw.values())
+                t_a = pp.SecondOrderTensor(**kw)
+                c_a = t_a.copy()
+                r_a = t_a.restrict_to_cells(np.array([0], dtype=int))
+                before = c_a.values
+                c_a.rotate(np.eye(3))
+                res["alias"] = [len(args), share_matrix(
+                    args + [t_a.values, before, r_a.values, c_a.values])]
             for op in case["ops"]:
                 if op[0] == "rotate":
                     t.rotate(np.array(op[1], dtype=float))
@@ -303,8 +366,28 @@ class C40(Prop):
                 res["indep"].append(ok)
                 t = new
             return res
-        mu = np.array(case["mu"], dtype=float)
-        la = np.array(case["lmbda"], dtype=float)
+        if case["kind"] == "fourth_args":
+            def mk(a):
+                if a[0] == "arr":
+                    x = np.array(a[2], dtype=float)
+                    if a[1] == 0:
+                        return np.array(a[2][0])
+                    if a[1] == 2:
+                        return x.reshape(1, -1) if len(a[2]) != 4 else x.reshape(2, 2)
+                    if a[1] == 3:
+                        return x.reshape(1, 1, -1)
+                    return x
+                return {"list": list(a[2]), "float": float(a[2][0]), "none": None,
+                        "tuple": tuple(a[2])}[a[0]]
+            try:
+                t = pp.FourthOrderTensor(mk(case["mu"]), mk(case["lmbda"]))
+            except ValueError:
+                return {"t0": ["err", "ValueErr"]}
+            return {"t0": ["val", [float(x) for x in t.mu], [float(x) for x in t.lmbda],
+                           cells_of(t.values), []]}
+        dt = int if case.get("dtype") == "int" else float
+        mu = np.array(case["mu"], dtype=dt)
+        la = np.array(case["lmbda"], dtype=dt)
         names = [e[0] for e in case.get("extra", [])]
         other = {e[0]: (np.array(e[1], dtype=float), np.array(e[2], dtype=float))
                  for e in case.get("extra", [])} or None
@@ -319,6 +402,9 @@ class C40(Prop):
             t = pp.FourthOrderTensor(mu, la, other)
         except ValueError:
             return {"t0": ["err", "ValueErr"], "restrict": None, "copy": None, "indep": []}
+        except TypeError as e:   # numpy casting errors are TypeErrors: not in the model's enum
+            return {"t0": ["err", "TypeErr:" + type(e).__name__], "restrict": None, "copy": None,
+                    "indep": []}
         res = {"t0": dump(t), "restrict": None, "copy": None, "indep": [],
                "params": list(t.constitutive_parameters)}
         before = [a.copy() for a in arrays(t)]
@@ -339,6 +425,11 @@ class C40(Prop):
         res["copy"] = dump(c)
         res["indep"].append(self._probe(arrays(r), arrays(c)))
         res["copy_type"] = type(c).__name__
+        res["alias"] = None
+        if len(mu) >= 1 and len(case["cells"]) >= 1:
+            args = [mu, la] + [other[n][1] for n in names]
+            res["alias"] = [len(names), share_matrix(
+                args + arrays(t) + arrays(c0) + arrays(r) + arrays(c))]
         return res
 
     # -- oracle --------------------------------------------------------------------------
@@ -399,8 +490,25 @@ class C40(Prop):
                             return f"restricted cell {k} is not cell {c} of the original"
                 cur = new
             return None
+        if case["kind"] == "fourth_args":
+            a, b = case["mu"], case["lmbda"]
+            good = (a[0] == "arr" and b[0] == "arr" and a[1] == 1 and b[1] == 1
+                    and len(a[2]) == len(b[2]))
+            if good and res["t0"][0] != "val":
+                return "constructor rejected two 1-D arrays of equal length"
+            if res["t0"][0] == "val":
+                for c, (m, l, v) in enumerate(zip(res["t0"][1], res["t0"][2], res["t0"][3])):
+                    v = np.array(v)
+                    if not np.array_equal(v, v.T) or not np.allclose(
+                            v, stiffness_reference(m, l), rtol=1e-12, atol=1e-12):
+                        return f"cell {c} is not the isotropic stiffness tensor of (mu, lmbda)"
+            return None
         # fourth order
         if res["t0"][0] != "val":
+            if res["t0"][1].startswith("TypeErr"):
+                return ("constructor raised " + res["t0"][1] + " for "
+                        + case.get("dtype", "float") + " mu/lmbda"
+                        + (" with a real-valued extra field" if case.get("extra") else ""))
             if len(case["mu"]) == len(case["lmbda"]):
                 return "constructor rejected arrays of equal length"
             return None
@@ -469,13 +577,32 @@ class C40(Prop):
             return f"(Restrict {clist(op[1], cz)})"
         return "Copy"
 
+    def _with_alias4(self, term, res):
+        if res.get("alias"):
+            return (f"({term}) && agree_alias4 {res['alias'][0]}%nat "
+                    f"{clist(res['alias'][1], cbool)}")
+        return term
+
     def coq_case(self, case, res):
         ql = lambda l: clist(l, cq)
         if case["kind"] == "second":
             args = " ".join([ql(case["kxx"])] + [coption(case[k], ql)
                                                  for k in ("kyy", "kzz", "kxy", "kxz", "kyz")])
-            return (f"agree_second {args} {clist(case['ops'], self._op)} {self._t2(res['t0'])} "
-                    f"{clist(res['outs'], self._t2)}")
+            t = (f"agree_second {args} {clist(case['ops'], self._op)} {self._t2(res['t0'])} "
+                 f"{clist(res['outs'], self._t2)}")
+            if res.get("alias"):
+                t = (f"({t}) && agree_alias2 {res['alias'][0]}%nat "
+                     f"{clist(res['alias'][1], cbool)}")
+            return t
+        if case["kind"] == "fourth_args":
+            def carg(a):
+                if a[0] != "arr":
+                    return "NotArray"
+                return f"(Arr {a[1]}%nat {ql(a[2])})"
+            return (f"agree_fourth_checked {carg(case['mu'])} {carg(case['lmbda'])} "
+                    f"{self._t4(res['t0'])}")
+        if res["t0"][0] == "err" and res["t0"][1].startswith("TypeErr"):
+            return "false"
         extra = case.get("extra", [])
         if extra:
             m99 = lambda m: clist(m, lambda r: clist(r, cq))
@@ -484,16 +611,20 @@ class C40(Prop):
                     f"{clist(case['cells'], cz)}")
             if res["t0"][0] != "val":
                 return f"{head} {self._t4(res['t0'])} (IErr ValueErr) (IErr ValueErr)"
-            return (f"{head} {self._t4(res['t0'], True)} {self._t4(res['restrict'], True)} "
-                    f"{self._t4(res['copy'], True)}")
+            return self._with_alias4(
+                f"{head} {self._t4(res['t0'], True)} {self._t4(res['restrict'], True)} "
+                f"{self._t4(res['copy'], True)}", res)
         if res["t0"][0] != "val":
             return (f"agree_fourth {ql(case['mu'])} {ql(case['lmbda'])} {clist(case['cells'], cz)} "
                     f"{self._t4(res['t0'])} (IErr ValueErr) (IErr ValueErr)")
-        return (f"agree_fourth {ql(case['mu'])} {ql(case['lmbda'])} {clist(case['cells'], cz)} "
-                f"{self._t4(res['t0'])} {self._t4(res['restrict'])} {self._t4(res['copy'])}")
+        return self._with_alias4(
+            f"agree_fourth {ql(case['mu'])} {ql(case['lmbda'])} {clist(case['cells'], cz)} "
+            f"{self._t4(res['t0'])} {self._t4(res['restrict'])} {self._t4(res['copy'])}", res)
 
     def coq_diag(self, case, res):
         ql = lambda l: clist(l, cq)
+        if case["kind"] == "fourth_args":
+            return None
         if case["kind"] == "second":
             args = " ".join([ql(case["kxx"])] + [coption(case[k], ql)
                                                  for k in ("kyy", "kzz", "kxy", "kxz", "kyz")])
@@ -502,11 +633,16 @@ class C40(Prop):
         return f"fourth_order QOps {ql(case['mu'])} {ql(case['lmbda'])}"
 
     def nontrivial(self, case, res):
+        if case["kind"] == "fourth_args":
+            return True
         if case["kind"] == "second":
             return res["t0"][0] == "val" and case["nc"] > 0 and len(case["ops"]) > 0
         return res["t0"][0] == "val" and len(case["mu"]) > 0
 
     def finding_key(self, case, res, why):
+        if case["kind"] == "fourth" and "constructor raised TypeErr" in why and \
+                case.get("dtype") == "int" and case.get("extra"):
+            return "fourth: constructor raised for integer mu/lmbda with a real-valued extra field"
         return case["kind"] + ": " + why.split(" in cell")[0][:60]
 
     def shrink(self, case, still_fails):
